@@ -130,9 +130,11 @@ def expr_src(e):
                 out.append("${%s}" % expr_src(part)[0])
         out.append('"')
         return "".join(out), PREC["primary"]
-    if k == "self":
-        return "self", PREC["primary"]
-    if k == "super":
+    if k == "Self":
+        return "Self", PREC["primary"]
+    if k == "superinv":
+        return "super.%s(%s)" % (e["m"], ", ".join(sub(a, PREC["assign"]) for a in e["args"])), PREC["call"]
+    if k == "superget":
         return "super.%s" % e["m"], PREC["call"]
     raise ValueError(k)
 
@@ -166,6 +168,8 @@ def token_src(t):
     if k == "continue":
         return "continue;"
     if k == "return":
+        if t["e"]["k"] == "lit" and t["e"]["v"]["k"] == "nil":
+            return "return;"
         return "return %s;" % src_of(t["e"])
     if k == "throw":
         return "throw %s;" % src_of(t["e"])
@@ -177,6 +181,19 @@ def token_src(t):
         return "} finally {"
     if k == "fn":
         return "fn %s(%s) {" % (t["x"], ", ".join(p["x"] for p in t["ps"]))
+    if k == "class":
+        attrs = []
+        if t["sup"]["k"] == "var":
+            attrs.append("derive(%s)" % t["sup"]["x"])
+        if t["ctor"]:
+            attrs.append("constructor(%s)" % t["ctor"])
+        return ("#[%s] " % ", ".join(attrs) if attrs else "") + "class %s {" % t["x"]
+    if k == "method":
+        ps = [p["x"] for p in t["ps"]]
+        if t["kind"] == "static":
+            return "#[static] fn %s(%s) {" % (t["x"], ", ".join(ps))
+        head = "#[constructor] " if t["kind"] == "ctor" else ""
+        return head + "fn %s(%s) {" % (t["x"], ", ".join(["self"] + ps))
     raise ValueError(k)
 
 
@@ -319,9 +336,48 @@ class Builder:
         self.opens.append("fn")
         return self
 
+    def class_(self, name, sup=None, ctor=""):
+        d = self.declare(name)
+        supnode = self.v(sup) if sup else lit(None)
+        superd = 0
+        if sup:
+            self.push_scope()
+            superd = self.declare("super")
+        self.emit(t="class", x=name, d=d, sup=supnode, superd=superd, ctor=ctor)
+        self.opens.append("class+sup" if sup else "class")
+        return self
+
+    def method(self, name, params, kind="method"):
+        self.funcs.append({"scopes": [[]], "script": False})
+        sd = self.declare("Self" if kind == "static" else "self")
+        ps = [{"x": p, "d": self.declare(p)} for p in params]
+        self.emit(t="method", x=name, ps=ps, kind=kind, sd=sd)
+        self.opens.append("fn")
+        return self
+
+    def Self(self):
+        return {"k": "Self", "d": self.resolve("Self")}
+
+    def selfname(self):
+        # the name of local 0 of the current function (what `super` pushes as receiver)
+        sc = self.funcs[-1]["scopes"][0]
+        return sc[0][0] if sc and sc[0][0] in ("self", "Self") else ""
+
+    def superinv(self, m, *args):
+        n = self.selfname()
+        return {"k": "superinv", "m": m, "args": list(args), "d": self.resolve("super"), "sd": self.resolve(n) if n else 0, "sx": n}
+
+    def superget(self, m):
+        n = self.selfname()
+        return {"k": "superget", "m": m, "d": self.resolve("super"), "sd": self.resolve(n) if n else 0, "sx": n}
+
     def end(self):
         kind = self.opens.pop()
-        if kind == "fn":
+        if kind == "class":
+            pass
+        elif kind == "class+sup":
+            self.pop_scope()
+        elif kind == "fn":
             self.funcs.pop()
         else:
             self.pop_scope()
